@@ -15,8 +15,14 @@ resample, sel, pad, [] / point lookups), then changes in place - the mesh or the
 Field.rotate90 in place - in several orders, or the source is itself the library's result of a selection / padding / resampling (then read and moved).
 "The source's value at that same point" always means the source as it is at the time of the call: current corner points, current data; the effect of
 every history step is computed here from its documented meaning and the case is only used when the source really is in that state.
+EXACT TIES: a further block works on exactly representable (dyadic / integer) geometry, where a requested coordinate, a box corner or the centre of a
+resampled cell lies EXACTLY on a face between two source cells (or on the region boundary) and every number the library derives from the corners is exact
+in floating point.  There nothing may be attributed "to either neighbour": the statement's "cell containing the point" is the half-open cell
+(lower face inclusive, the last cell includes the upper region face - the convention of the library's own point2index / field(point)), and the oracle is
+floor((p - pmin) / cell), clipped at the upper boundary, in exact rational arithmetic (fractions.Fraction of the corner doubles).
 Bounded: meshes of 1-4 dimensions with at most 8 cells per axis, seeded geometry."""
 import itertools
+from fractions import Fraction as Fr
 import numpy as np
 import discretisedfield as df
 from .common import raises, ulp_close
@@ -42,6 +48,21 @@ CLAUSES = {
     "C07.same_point": "own lookup: every cell centre of the result (computed from the result's region and n) lies at a cell centre of the source lattice "
                       "(fraction 1/2 to rounding) and the result holds the source's value and validity of the cell containing that point",
     "C07.metadata": "results keep nvdim, vdims, unit and vdim_mapping; dims/units follow the kept axes",
+    "C07.resample_point": "exact (dyadic / integer) geometry, no tolerance: every cell of field.resample(n') - all n' <= 8 per axis whose lattice is exact, "
+                          "also Field(mesh over an exact sub-box of the region, value=field), the same lookup onto part of the region - holds value AND validity of the "
+                          "source cell containing its centre p: index floor((p - pmin)/cell) in exact rational arithmetic (half-open cells: a centre exactly on a "
+                          "face belongs to the upper cell; the last cell includes the upper region face)",
+    "C07.point_convention": "exact geometry: the library's own point lookup (Mesh.point2index, field(point)) puts a point exactly on a cell face into the upper cell, "
+                            "pmin into the first and pmax into the last cell, and agrees with the exact rational floor on faces, centres and resampled-cell centres "
+                            "(the convention the statement's 'cell containing the point' refers to)",
+    "C07.sel_exact": "exact geometry, no tolerance: plane selection at a coordinate exactly on a face takes the upper cell (pmax: the last cell), a range selection with "
+                     "bounds exactly on faces / centres / quarter points / the region boundary keeps exactly the cells floor(lo) .. min(floor(hi), n-1) in either order "
+                     "of the bounds; values and validity are those cells', the selected region is exactly [pmin + klo*cell, pmin + (khi+1)*cell], other axes "
+                     "untouched, Mesh.sel agrees, subregions do not make it raise",
+    "C07.getitem_exact": "exact geometry, no tolerance: field[region] / mesh[region] with every bound independently exactly on a cell face, on the region boundary or "
+                         "at a quarter / half point of a cell return exactly the cells floor(lower) .. ceil(upper)-1 per axis (a bound on a face adds no cell layer), "
+                         "region exactly those cells' corners, values and validity theirs; region2slices of a box with all bounds on faces is exactly its index box "
+                         "and array[slices] is the extracted field",
     "C07.reject_outside": "coordinates / ranges / regions outside the mesh region, unknown axes and unknown subregion names are rejected (ValueError / KeyError)",
 }
 RULE = ("seeded fields on 1-4-d anisotropic meshes (scales 1e-9, 1e-3, 1 with subregions; 10^U(-12,6) without), non-default dims/units, "
@@ -58,6 +79,14 @@ RULE = ("seeded fields on 1-4-d anisotropic meshes (scales 1e-9, 1e-3, 1 with su
         "orders, reads = all of cells, vertices, to_xarray, coordinate_field, resample, sel, pad, [], point lookup (or one of them), vectors / factors / reference "
         "points as tuple / list / array / ints, double and integer geometry, all field dtypes; then each of sel plane, sel range, [name] / [region] / "
         "region2slices, pad, resample (also resample a second time) with the same clauses and oracles on the source's CURRENT geometry and data. "
+        "Fifth block (exact ties): per dimension 1-4 and per sign class (region below zero with pmax == 0 or a face / centre distance from it, across zero with "
+        "zero on a face / at a centre / at a quarter point / at pmin, above zero, offsets of 2^16..2^30 cells of either sign) seeded dyadic geometry: extent = "
+        "M * m * 2^k (M from 840, 24, 12, 2n, lcm(n, t); m odd; k in -6..4), integer corners handed over as int / int64 where integral, either corner order; "
+        "values unique per cell, checkerboard-like validity (differs across nearly every face), all field dtypes; resample to ALL exact target resolutions "
+        "<= 8 per axis (1-d; sampled products, targets with centres on faces preferred, in 2-4 d: n -> n/2, n/4, 3n/2, 4 -> 6, 6 -> 4 ... whatever is exact), "
+        "sub-box meshes with corners on the half-cell lattice; plane selection at every face / centre / quarter point and pmin / pmax, range selection for all "
+        "pairs of faces and sampled face / centre / quarter pairs (float, np.float64, int, np.int64 scalars; tuple / list / array), with and without subregions; "
+        "boxes on the quarter-cell lattice (1-d: all with a bound on a face, else sampled with faces and the region boundary preferred). "
         "non-trivial = field with more than one cell; distinct by (kind, params)")
 ASSUMPTIONS = [
     "bounded: 1-4 dimensions, <= 8 cells per axis, seeded geometry; subregion layouts of up to 3 index boxes",
@@ -75,6 +104,10 @@ ASSUMPTIONS = [
     "data and mesh no longer fit); with subregions only moves that do not cancel the coordinate scale (region and subregions are rounded separately); "
     "renaming renames region and subregion objects alike; chained sources (sel / pad / resample results) and the shared-Region and Field.rotate90 histories "
     "on meshes without subregions, padded / resampled sources get distinct values written in place before use",
+    "exact ties: only geometry whose corner points, half / quarter cells and all lattice points (source, targets, sub-boxes) are doubles with a common binary "
+    "quantum and less than 2^46 quanta from zero, so that every sum / difference / integer multiple the library forms is exact and floor of a correctly "
+    "rounded quotient is the exact floor; target resolutions or quarter lattices that are not exact for a geometry are left to the tolerant clauses above; "
+    "np.float32 coordinates are not used in this block",
     "values are compared by numerical equality (==) across dtypes: the property does not say that the result keeps the data type of the source "
     "(the library returns float64 from sel / [] / pad of int and float32 fields); complex 'maximum'/'minimum' padding uses numpy's lexicographic order",
 ]
@@ -165,6 +198,11 @@ class Agg:
                 self.ctx.require(True, clause)
         for (clause, sig), (what, detail, cnt) in self.bad.items():
             self.ctx.require(False, clause, what, sig=sig, failures_in_case=cnt, **detail)
+
+
+def err(raised, value):
+    """text of the exception a call raised (None when it returned: the repr of a Field renders an html template, ~20 ms each)"""
+    return repr(value)[:200] if raised else None
 
 
 def rej(fn, types=(ValueError,)):
@@ -326,6 +364,9 @@ class Src:
         self.array = self.unique_values()
         vr = np.random.default_rng(pr.get("vseed", 0))
         self.valid = vr.random(tuple(self.n)) < 0.65
+        if pr.get("vpattern") == "checker":             # validity that differs across (nearly) every cell face: index parity, a few seeded exceptions
+            par = np.indices(tuple(int(k) for k in self.n)).sum(axis=0) % 2 == int(pr.get("vseed", 0)) % 2
+            self.valid = par ^ (vr.random(tuple(self.n)) < 0.15)
         self.vdims = ["va", "vb", "vc", "vd"][: self.nvdim] if self.nvdim > 1 else None
         kw = {}
         if self.nvdim > 1:
@@ -783,6 +824,73 @@ def gen_history(rng, base, primary, template, integral):
     return [read() if c == "R" else {"op": "read", "what": "all"} if c == "A" else geo() if c == "G" else data() if c == "D" else prim() for c in plan]
 
 
+# ------------------------------------------------------------------------------------------ exact (dyadic / integer) geometry: ties
+TIE_CLASSES = ["neg", "span", "pos", "far"]
+
+
+def exact_div(pmin, pmax, n):
+    """the lattice pmin + i * (pmax - pmin) / (2 n), i = 0 .. 2n (faces and centres of n cells between the two doubles pmin, pmax) consists of doubles
+    with a common binary quantum and fewer than 2^46 quanta from zero: every sum, difference and small integer multiple formed from them is exact in
+    floating point, and the floor of a correctly rounded quotient of two of them is the exact floor"""
+    pmin, pmax = Fr(pmin), Fr(pmax)
+    h = (pmax - pmin) / (2 * int(n))
+    if h <= 0 or h.denominator & (h.denominator - 1):
+        return False
+    den = max(h.denominator, pmin.denominator, pmax.denominator)
+    return (max(abs(pmin), abs(pmax)) + (pmax - pmin)) * den < 2 ** 46
+
+
+def exact_src(src):
+    """(pmin, pmax, cell) per axis as exact rationals of the corner doubles the source holds; None unless the source's lattice of faces and centres is exact"""
+    lo, hi = [Fr(float(v)) for v in src.pmin], [Fr(float(v)) for v in src.pmax]
+    if not all(exact_div(a, b, n) for a, b, n in zip(lo, hi, src.n)):
+        return None
+    return lo, hi, [(b - a) / int(n) for a, b, n in zip(lo, hi, src.n)]
+
+
+def cell_of(p, pmin, cell, n):
+    """index of the half-open cell [pmin + i cell, pmin + (i+1) cell) containing p, the last cell including the upper region face (exact rational floor)"""
+    return min(int((p - pmin) // cell), int(n) - 1)
+
+
+def tie_geometry(rng, ndim, nmax, cls):
+    """dyadic corner points: extent = M * m * 2^k with M a multiple of n (840 = lcm(1..8): every target resolution <= 8 exact; 24, 12, 2n, lcm(n, t): some),
+    pmin on the quarter-cell lattice: region below zero (pmax == 0 or a few half cells below), across zero (zero on a face / quarter point / centre / at pmin),
+    above zero, or 2^16 .. 2^30 quarter cells away from zero; the quarter-cell lattice of the source is exact (exact_div)"""
+    p1, p2, ns = [], [], []
+    for j in range(ndim):
+        for attempt in range(60):
+            n = int(rng.choice([k for k in (2, 4, 6, 8, 4, 8, 2, 3, 5, 7, 1) if k <= nmax and (k > 1 or (ndim > 1 and j > 0))]))
+            t = int(rng.integers(1, 9))
+            M = int(rng.choice([840, 840, 24, 12, 2 * n, int(np.lcm(n, t)), int(np.lcm(n, t))]))
+            if M % n:
+                M *= n
+            ext = Fr(M * int(rng.choice([1, 1, 3, 5]))) * Fr(2) ** int(rng.integers(-6, 5))
+            cell = ext / n
+            c = cls if cls != "mixed" else TIE_CLASSES[int(rng.integers(len(TIE_CLASSES)))]
+            if c == "neg":
+                pmin = -cell * Fr(int(rng.choice([0, 0, 1, 2, 3, 10])), 2) - ext
+            elif c == "span":
+                pmin = -(cell * int(rng.integers(0, n)) + cell * Fr(int(rng.choice([0, 0, 1, 2, 3])), 4))
+            elif c == "pos":
+                pmin = cell * Fr(int(rng.choice([0, 1, 2, 3, 7, 20])), 2)
+            else:
+                pmin = int(rng.choice([-1, 1])) * (2 ** int(rng.integers(16, 31)) + int(rng.integers(0, 64))) * cell / 4
+            if exact_div(pmin, pmin + ext, 2 * n):
+                break
+        else:
+            n, pmin, ext = min(4, nmax), Fr(0), Fr(12)
+        a, b = float(pmin), float(pmin + ext)
+        if rng.random() < 0.4:
+            a, b = b, a
+        p1.append(a)
+        p2.append(b)
+        ns.append(n)
+    if ndim > 1 and len(set(ns)) == 1 and ns[0] > 2:       # anisotropic cell counts (the extent stays a multiple: halving keeps the lattice dyadic)
+        ns[0] = ns[0] // 2 if ns[0] % 2 == 0 else ns[0]
+    return p1, p2, ns
+
+
 # ------------------------------------------------------------------------------------------ cases
 def cases(ctx):
     rng = ctx.rng
@@ -896,6 +1004,35 @@ def cases(ctx):
     yield "sel_range", {"p1": [0.0, 0.0, 0.0], "p2": [10.0, 6.0, 4.0], "n": [5, 3, 4], "nvdim": 3, "vseed": 2,
                         "subs": [[[0, 0, 0], [2, 3, 4]], [[2, 0, 1], [5, 2, 3]]], "axis": 0, "seed": 2, "dims": ["x", "y", "z"]}
     yield "pad", {"p1": [0.0, 0.0], "p2": [3.0, 2.0], "n": [3, 2], "nvdim": 2, "vseed": 3, "subs": [], "mode": "constant", "seed": 3, "nwidths": 6, "const": 7.5}
+    # ---- exact ties: dyadic / integer geometry in which requested coordinates, box corners and centres of resampled cells lie exactly on cell faces
+    tfd = ["float64", "float64", "int64", "float32", "complex128", "float64", "int32", "complex64"]
+    for ndim in (1, 2, 3, 4):
+        nmax = {1: 8, 2: 8, 3: 6, 4: 4}[ndim]
+        for rep in range(len(TIE_CLASSES) * (3 if quick else 10)):
+            cnt += 1
+            cls = TIE_CLASSES[rep % len(TIE_CLASSES)] if rep < 2 * len(TIE_CLASSES) or ndim == 1 else "mixed"
+            p1, p2, n = tie_geometry(rng, ndim, nmax, cls)
+            base = {"p1": p1, "p2": p2, "n": n, "nvdim": int(rng.choice([1, 2, 3])), "vseed": int(rng.integers(1 << 30)), "vpattern": "checker",
+                    "subs": [], "fdtype": tfd[cnt % len(tfd)]}
+            if all(float(v).is_integer() and abs(v) < 2 ** 31 for v in p1 + p2):      # integer corner points are also handed over as integers
+                base["geo"] = ["int", "npint64", "floatint", "int"][cnt % 4]
+            if rep % 2:
+                base["dims"] = ["x", "y", "z"][:ndim] if ndim <= 3 else ["x0", "x1", "x2", "x3"]
+            yield "tie_resample", dict(base, seed=int(rng.integers(1 << 30)), ntargets={1: 64, 2: 48, 3: 32, 4: 20}[ndim] if quick else 96, nsub=4 if quick else 12)
+            withsub = dict(base, subs=index_boxes(rng, n, int(rng.integers(1, 4)))) if rep % 2 == 0 else base
+            for a in range(ndim):
+                yield "tie_sel", dict(withsub, axis=a, seed=int(rng.integers(1 << 30)), cont=CONTAINERS[(cnt + a) % len(CONTAINERS)], npairs=24 if quick else 60)
+            yield "tie_getitem", dict(withsub, seed=int(rng.integers(1 << 30)), nboxes=40 if quick else 120)
+    # fixed exact configurations: thirds of 12 (4 -> 6, 4 -> 2), unit cells across zero halved, 6 -> 3 / 6 -> 4 below zero, a large offset, four dimensions
+    fixed = [{"p1": [0, 0], "p2": [12, 4], "n": [4, 2], "geo": "int"}, {"p1": [-8, -4, -2], "p2": [8, 4, 2], "n": [8, 4, 2], "geo": "npint64"},
+             {"p1": [-6.0], "p2": [0.0], "n": [6]}, {"p1": [-0.75], "p2": [0.75], "n": [6]}, {"p1": [1048576.5, -3.0], "p2": [1048582.5, 3.0], "n": [8, 6]},
+             {"p1": [3.0, 1.0, 0.0, -1.0], "p2": [-3.0, -1.0, 4.0, 1.0], "n": [4, 2, 4, 2]}, {"p1": [-1073741824.0], "p2": [-1073741816.0], "n": [4]}]
+    for i, fx in enumerate(fixed):
+        base = dict({"nvdim": 1 + i % 3, "vseed": 11 + i, "vpattern": "checker", "subs": []}, **fx)
+        yield "tie_resample", dict(base, seed=i, ntargets=40, nsub=4)
+        for a in range(len(fx["n"])):
+            yield "tie_sel", dict(base, axis=a, seed=i, cont=CONTAINERS[i % 3], npairs=24)
+        yield "tie_getitem", dict(base, seed=i, nboxes=40)
 
 
 # ------------------------------------------------------------------------------------------ checks
@@ -908,7 +1045,8 @@ def check(kind, pr, ctx):
         ctx.trivial()
     ag = Agg(ctx)
     {"sel_plane": check_sel_plane, "sel_range": check_sel_range, "getitem": check_getitem,
-     "pad": check_pad, "resample": check_resample}[kind](src, pr, ag)
+     "pad": check_pad, "resample": check_resample, "tie_resample": check_tie_resample, "tie_sel": check_tie_sel,
+     "tie_getitem": check_tie_getitem}[kind](src, pr, ag)
     ag.flush()
 
 
@@ -929,7 +1067,7 @@ def check_sel_plane(src, pr, ag):
         cand = src.cands(a, xx)
         call = (lambda: f.sel(dim)) if x is None else (lambda: f.sel(**{dim: x}))
         r, res = raises(Exception, call)
-        if not ag.req(not r, "C07.sel_plane", "plane selection inside the region raised", coord=x, coord_type=type(x).__name__, axis=a, error=repr(res)[:200]):
+        if not ag.req(not r, "C07.sel_plane", "plane selection inside the region raised", coord=x, coord_type=type(x).__name__, axis=a, error=err(r, res)):
             continue
 
         def sig_for(got):
@@ -1064,7 +1202,7 @@ def check_getitem(src, pr, ag):
     for i, (lo, hi) in enumerate(src.boxes):
         name = "r%d" % i
         r, res = raises(Exception, lambda: f[name])
-        if not ag.req(not r, "C07.getitem_named", "field['name'] raised", name=name, error=repr(res)[:160]):
+        if not ag.req(not r, "C07.getitem_named", "field['name'] raised", name=name, error=err(r, res)):
             continue
         sub = src.mesh.subregions[name]
         ag.req(res.mesh.region == sub and np.array_equal(res.mesh.n, np.array(hi) - np.array(lo)) and same_cell(src, res.mesh, allax),
@@ -1121,7 +1259,7 @@ def check_getitem(src, pr, ag):
     # ---- arbitrary boxes: corners clearly inside cells
     def check_box(reg, lo, hi, a_, b_):
         r, res = raises(Exception, lambda: f[reg])
-        if not ag.req(not r, "C07.getitem_region", "field[arbitrary box] raised", lo=lo, hi=hi, p1=a_, p2=b_, error=repr(res)[:160]):
+        if not ag.req(not r, "C07.getitem_region", "field[arbitrary box] raised", lo=lo, hi=hi, p1=a_, p2=b_, error=err(r, res)):
             return
         maps, al = lattice_maps(src, res.mesh.region.pmin, res.mesh.region.pmax, res.mesh.n, allax)
         glo, ghi = [int(mp[0]) for mp in maps], [int(mp[-1]) for mp in maps]
@@ -1247,7 +1385,7 @@ def check_pad(src, pr, ag):
         full = [w if w is not None else (0, 0) for w in widths]
         kw = {} if const is None else {"constant_values": const}
         r, res = raises(Exception, lambda: f.pad(pw, mode=mode, **kw))
-        if not ag.req(not r, "C07.pad_values", "pad raised", pad_width=pw, mode=mode, error=repr(res)[:160]):
+        if not ag.req(not r, "C07.pad_values", "pad raised", pad_width=pw, mode=mode, error=err(r, res)):
             continue
         m = res.mesh
         lo, hi = np.array([w[0] for w in full]), np.array([w[1] for w in full])
@@ -1287,7 +1425,7 @@ def check_resample(src, pr, ag):
         targets = sorted(targets)
     for tn in targets:
         r, res = raises(Exception, lambda: f.resample(tn))
-        if not ag.req(not r, "C07.resample", "resample raised", n=tn, error=repr(res)[:160]):
+        if not ag.req(not r, "C07.resample", "resample raised", n=tn, error=err(r, res)):
             continue
         ag.req(res.mesh.region == src.mesh.region and np.array_equal(res.mesh.region.pmin, src.pmin) and np.array_equal(res.mesh.region.pmax, src.pmax)
                and np.array_equal(res.mesh.n, tn) and res.array.shape == (*tn, src.nvdim) and res.valid.shape == tuple(tn) and res.valid.dtype == bool,
@@ -1318,3 +1456,279 @@ def check_resample(src, pr, ag):
                         bad = {"axis": a, "new_cell": j, "source_cells": sorted(got), "nearest": sorted(cand[a][j])}
         ag.req(okr, "C07.resample", "a resampled cell does not hold value and validity of the nearest source cell", n=tn, src_n=src.n, detail=bad)
     ag.req(rej(lambda: f.resample(tuple([2] * (nd + 1))), (ValueError, TypeError)), "C07.reject_outside", "resample with wrong number of axes accepted")
+
+
+# ------------------------------------------------------------------------------------------ exact ties (dyadic / integer geometry, no tolerance anywhere)
+def pick(rng, lst, k):
+    return list(lst) if len(lst) <= k else [lst[i] for i in sorted(rng.choice(len(lst), int(k), replace=False).tolist())]
+
+
+def as_given(src, x, how):
+    """an exact coordinate (a double) in the scalar type under test: Python float, np.float64, or - where integral - int / np.int64"""
+    x = float(x)
+    if how in ("int", "npint64") and x.is_integer() and abs(x) < 2 ** 62:
+        return int(x) if how == "int" else np.int64(int(x))
+    return np.float64(x) if how in ("np64", "npint64") else x
+
+
+def first_difference(src, res_array, res_valid, want, wantv):
+    """first result cell whose value or validity is not the expected one, with the source cell its value really comes from"""
+    d = np.argwhere(np.any(res_array != want, axis=-1) | (res_valid != wantv))
+    j = tuple(int(v) for v in d[0])
+    origin = src.locate(np.array([res_array[j][0]]))
+    return j, (None if origin is None else [int(ix[0]) for ix in origin]), len(d)
+
+
+def check_tie_resample(src, pr, ag):
+    ex = exact_src(src)
+    if ex is None:              # (not an exact geometry: nothing is claimed here)
+        ag.ctx.trivial()
+        return
+    lo, hi, cell = ex
+    rng = np.random.default_rng(pr["seed"])
+    f, nd = src.field, src.ndim
+    # per axis and exact target resolution t: source cell of every new centre, whether the centre lies exactly on a source face, the centre as a double
+    per = []
+    for a in range(nd):
+        d = {}
+        for t in range(1, 9):
+            if not exact_div(lo[a], hi[a], t):
+                continue
+            pts = [lo[a] + (hi[a] - lo[a]) * Fr(2 * j + 1, 2 * t) for j in range(t)]
+            d[t] = (np.array([cell_of(p, lo[a], cell[a], src.n[a]) for p in pts]), [((p - lo[a]) / cell[a]).denominator == 1 for p in pts], [float(p) for p in pts])
+        per.append(d)
+    combos = list(itertools.product(*[sorted(d) for d in per]))
+    tied = [c for c in combos if any(any(per[a][t][1]) for a, t in enumerate(c))]
+    tset = set(tied)
+    plain = [c for c in combos if c not in tset]
+    nt = int(pr["ntargets"])
+    targets = pick(rng, tied, max(1, (3 * nt) // 4)) + pick(rng, plain, max(1, nt // 4))
+    nties = 0
+    for tn in targets:
+        r, res = raises(Exception, lambda: f.resample(tn))
+        if not ag.req(not r, "C07.resample_point", "resample raised", n=tn, error=err(r, res)):
+            continue
+        maps = [per[a][t][0] for a, t in enumerate(tn)]
+        nties += sum(sum(per[a][t][1]) for a, t in enumerate(tn))
+        want, wantv = src.array[np.ix_(*maps)], src.valid[np.ix_(*maps)]
+        shape_ok = res.array.shape == want.shape and res.valid.shape == wantv.shape and res.valid.dtype == bool \
+            and np.array_equal(res.mesh.region.pmin, src.pmin) and np.array_equal(res.mesh.region.pmax, src.pmax) and np.array_equal(res.mesh.n, tn)
+        if not ag.req(shape_ok, "C07.resample_point", "resampled field does not keep the region / requested n", n=tn, got_n=res.mesh.n):
+            continue
+        ok = np.array_equal(res.array, want) and np.array_equal(res.valid, wantv)
+        if ok:
+            ag.req(True, "C07.resample_point")
+            continue
+        j, origin, cnt = first_difference(src, res.array, res.valid, want, wantv)
+        ag.req(False, "C07.resample_point", "a resampled cell does not hold value and validity of the source cell containing its centre",
+               n=tn, src_n=src.n, new_cell=list(j), centre=[per[a][t][2][j[a]] for a, t in enumerate(tn)],
+               centre_on_source_face=[bool(per[a][t][1][j[a]]) for a, t in enumerate(tn)], containing_cell=[int(maps[a][j[a]]) for a in range(nd)],
+               value_taken_from_cell=origin, value=res.array[j], want_value=want[j], valid=bool(res.valid[j]), want_valid=bool(wantv[j]), cells_wrong=cnt,
+               pmin=src.pmin, cell=[float(c) for c in cell])
+    if nd == 1 and len(per[0]) > 1 and src.n[0] % 2 == 0 and nties == 0:
+        ag.req(False, "C07.resample_point", "checker: an even cell count with exact targets must have produced centres on faces")
+    # ---- the same lookup onto a mesh over part of the region: sub-boxes with corners on the source's half-cell lattice, exact cell counts (values; a new
+    #      field's validity is its own)
+    for _ in range(int(pr.get("nsub", 0))):
+        c1, c2, n2, maps, onface, ctr = [], [], [], [], [], []
+        for a in range(nd):
+            u = int(rng.integers(0, 2 * src.n[a]))
+            v = int(rng.integers(u + 1, 2 * src.n[a] + 1))
+            a_, b_ = lo[a] + u * cell[a] / 2, lo[a] + v * cell[a] / 2
+            ts = [t for t in range(1, 9) if exact_div(a_, b_, t)]
+            good = [t for t in ts if any((((a_ + (b_ - a_) * Fr(2 * j + 1, 2 * t)) - lo[a]) / cell[a]).denominator == 1 for j in range(t))]
+            t = int(rng.choice(good if good and rng.random() < 0.8 else ts))
+            pts = [a_ + (b_ - a_) * Fr(2 * j + 1, 2 * t) for j in range(t)]
+            c1.append(float(a_))
+            c2.append(float(b_))
+            n2.append(t)
+            maps.append(np.array([cell_of(p, lo[a], cell[a], src.n[a]) for p in pts]))
+            onface.append([((p - lo[a]) / cell[a]).denominator == 1 for p in pts])
+            ctr.append([float(p) for p in pts])
+        r, g = raises(Exception, lambda: df.Field(df.Mesh(region=df.Region(p1=src.corner(c1), p2=src.corner(c2), dims=src.dims, units=src.units), n=tuple(n2)),
+                                                  nvdim=src.nvdim, value=f, dtype=f.array.dtype))
+        if not ag.req(not r, "C07.resample_point", "Field(mesh over a sub-box of the region, value=field) raised", p1=c1, p2=c2, n=n2, error=err(r, g)):
+            continue
+        want = src.array[np.ix_(*maps)]
+        if g.array.shape == want.shape and np.array_equal(g.array, want):
+            ag.req(True, "C07.resample_point")
+            continue
+        if g.array.shape != want.shape:
+            ag.req(False, "C07.resample_point", "field on a sub-box mesh has the wrong shape", p1=c1, p2=c2, n=n2, shape=g.array.shape)
+            continue
+        j, origin, cnt = first_difference(src, g.array, np.ones(want.shape[:-1], bool), want, np.ones(want.shape[:-1], bool))
+        ag.req(False, "C07.resample_point", "Field(mesh over a sub-box, value=field): a cell does not hold the value of the source cell containing its centre",
+               p1=c1, p2=c2, n=n2, new_cell=list(j), centre=[ctr[a][j[a]] for a in range(nd)], centre_on_source_face=[bool(onface[a][j[a]]) for a in range(nd)],
+               containing_cell=[int(maps[a][j[a]]) for a in range(nd)], value_taken_from_cell=origin, cells_wrong=cnt, pmin=src.pmin, cell=[float(c) for c in cell])
+    # ---- the library's own point lookup on the same points (faces, region boundary, centres of source and resampled cells), one axis at a time
+    first = [float(lo[b] + cell[b] / 2) for b in range(nd)]
+    hows = ["float", "int", "np64", "npint64"]
+    for a in range(nd):
+        pts = {lo[a] + k * cell[a] / 2 for k in range(2 * int(src.n[a]) + 1)}
+        for t in per[a]:
+            pts |= {lo[a] + (hi[a] - lo[a]) * Fr(2 * j + 1, 2 * t) for j in range(t)}
+        for i, p in enumerate(sorted(pts)):
+            k = cell_of(p, lo[a], cell[a], src.n[a])
+            point = [as_given(src, v, "float") for v in first]
+            point[a] = as_given(src, float(p), hows[i % 4] if src.geo_int else hows[2 * (i % 2)])
+            idx = tuple(k if b == a else 0 for b in range(nd))
+            r1, got = raises(Exception, lambda: src.mesh.point2index(tuple(point)))
+            r2, val = raises(Exception, lambda: f(tuple(point)))
+            ag.req(not r1 and tuple(got) == idx and not r2 and np.array_equal(np.asarray(val), src.array[idx]), "C07.point_convention",
+                   "point2index / field(point) do not give the half-open cell containing the point", axis=a, coordinate=float(p), point=[float(v) for v in point],
+                   on_face=((p - lo[a]) / cell[a]).denominator == 1, want_cell=list(idx), got=repr(got)[:80], value=repr(val)[:80], want_value=src.array[idx])
+
+
+def check_tie_sel(src, pr, ag):
+    ex = exact_src(src)
+    if ex is None:
+        ag.ctx.trivial()
+        return
+    lo, hi, cell = ex
+    a = pr["axis"]
+    rng = np.random.default_rng(pr["seed"])
+    f, nd, n, dim = src.field, src.ndim, int(src.n[a]), src.dims[a]
+    others = [j for j in range(nd) if j != a]
+    step = 4 if exact_div(lo[a], hi[a], 2 * n) else 2           # quarter points of the cells where they are exact, else faces and centres
+    pos = list(range(0, step * n + 1))                         # positions in units of cell/step from pmin; position % step == 0: a face
+    coord = lambda u: float(lo[a] + u * cell[a] / step)
+    cellof = lambda u: min(u // step, n - 1)
+    hows = ["float", "np64", "int", "npint64"]
+    cont = {"tuple": tuple, "list": list, "array": np.array}[pr.get("cont", "tuple")]
+    # ---- planes
+    for i, u in enumerate(pos):
+        x = as_given(src, coord(u), hows[i % 4])
+        k = cellof(u)
+        r, res = raises(Exception, lambda: f.sel(**{dim: x}))
+        info = dict(coord=float(x), coord_type=type(x).__name__, axis=a, on_face=u % step == 0, want_cell=k, pmin=src.pmin[a], cell=float(cell[a]))
+        if not ag.req(not r, "C07.sel_exact", "plane selection inside the region raised", error=err(r, res), **info):
+            continue
+        if nd == 1:
+            got = [q for q in range(n) if isinstance(res, np.ndarray) and np.array_equal(res, src.array[q])]
+            ag.req(got == [k], "C07.sel_exact", "1-d plane selection does not return the value of the cell containing the coordinate", taken_from_cells=got, **info)
+            continue
+        got = [q for q in range(n) if np.array_equal(res.array, np.take(src.array, q, axis=a)) and np.array_equal(res.valid, np.take(src.valid, q, axis=a))]
+        ag.req(got == [k] and res.valid.dtype == bool, "C07.sel_exact", "plane: value / validity not those of the cell containing the coordinate", taken_from_cells=got, **info)
+        m = res.mesh
+        rm, mm = raises(Exception, lambda: src.mesh.sel(**{dim: x})) if u % step == 0 else (False, m)
+        ag.req(np.array_equal(m.n, src.n[others]) and np.array_equal(m.region.pmin, src.pmin[others]) and np.array_equal(m.region.pmax, src.pmax[others])
+               and tuple(m.region.dims) == tuple(src.dims[j] for j in others) and not rm and mm == m, "C07.sel_exact",
+               "plane: the other axes are not exactly the source's / Mesh.sel differs", **info)
+    # ---- ranges: all pairs of faces, sampled pairs with centres / quarter points
+    faces = [u for u in pos if u % step == 0]
+    npairs = int(pr.get("npairs", 16))
+    pairs = [(u, v) for u in faces for v in faces if u <= v]
+    keep = [(faces[0], faces[0]), (faces[0], faces[-1]), (faces[-1], faces[-1]), (faces[len(faces) // 2], faces[-1])]      # region boundary as a bound
+    pairs = keep + pick(rng, [q for q in pairs if q not in keep], npairs)
+    rest = [(u, v) for u in pos for v in pos if u <= v and (u % step or v % step)]
+    pairs += pick(rng, rest, npairs // 2)
+    for i, (u, v) in enumerate(pairs):
+        klo, khi = cellof(u), cellof(v)
+        b = [as_given(src, coord(u), hows[i % 4]), as_given(src, coord(v), hows[(i // 4) % 4])]
+        order = cont(b if i % 2 == 0 else b[::-1])
+        info = dict(bounds=[float(q) for q in order], types="%s of %s" % (type(order).__name__, "/".join(sorted({type(q).__name__ for q in order}))), axis=a,
+                    lower_on_face=u % step == 0, upper_on_face=v % step == 0, want_cells=[klo, khi], pmin=src.pmin[a], cell=float(cell[a]), subregion_boxes=src.boxes)
+        r, res = raises(Exception, lambda: f.sel(**{dim: order}))
+        if not ag.req(not r, "C07.sel_exact", "range selection inside the region raised", error=err(r, res), **info):
+            continue
+        m = res.mesh
+        sl = tuple(slice(klo, khi + 1) if j == a else slice(None) for j in range(nd))
+        want_min, want_max = src.pmin.astype(float).copy(), src.pmax.astype(float).copy()
+        want_min[a], want_max[a] = float(lo[a] + klo * cell[a]), float(lo[a] + (khi + 1) * cell[a])
+        okm = m.region.ndim == nd and np.array_equal(m.n, [khi + 1 - klo if j == a else src.n[j] for j in range(nd)]) \
+            and np.array_equal(m.region.pmin, want_min) and np.array_equal(m.region.pmax, want_max) and tuple(m.region.dims) == tuple(src.dims)
+        ag.req(okm, "C07.sel_exact", "range: kept cells are not exactly those from the cell containing the lower to the cell containing the upper bound",
+               got_n=m.n, got_pmin=m.region.pmin, got_pmax=m.region.pmax, want_pmin=want_min, want_pmax=want_max, **info)
+        okv = res.array.shape == src.array[sl].shape and np.array_equal(res.array, src.array[sl]) and np.array_equal(res.valid, src.valid[sl]) and res.valid.dtype == bool
+        ag.req(okv, "C07.sel_exact", "range: values / validity are not those of the cells containing the bounds and the cells between them", **info)
+        rm, mm = raises(Exception, lambda: src.mesh.sel(**{dim: order}))
+        ag.req(not rm and mm == m, "C07.sel_exact", "range: Mesh.sel and Field.sel disagree", **info)
+    # ---- a quarter of a cell outside (exact)
+    for x in (float(lo[a] - cell[a] / 4), float(hi[a] + cell[a] / 4)):
+        if Fr(x) in (lo[a] - cell[a] / 4, hi[a] + cell[a] / 4):
+            ag.req(rej(lambda: f.sel(**{dim: x})) and rej(lambda: src.mesh.sel(**{dim: (x, float(lo[a] + cell[a] / 2))})), "C07.reject_outside",
+                   "coordinate a quarter of a cell outside the region accepted", coord=x, axis=a)
+
+
+def check_tie_getitem(src, pr, ag):
+    ex = exact_src(src)
+    if ex is None:
+        ag.ctx.trivial()
+        return
+    lo, hi, cell = ex
+    rng = np.random.default_rng(pr["seed"])
+    f, nd = src.field, src.ndim
+    step = [4 if exact_div(lo[a], hi[a], 2 * int(src.n[a])) else 2 for a in range(nd)]
+
+    def axis_pairs(a):
+        """(u, v), u < v, in units of cell/step from pmin: bounds on faces / the region boundary preferred"""
+        top = step[a] * int(src.n[a])
+        allp = [(u, v) for u in range(top + 1) for v in range(u + 1, top + 1)]
+        return allp, [(u, v) for u, v in allp if u % step[a] == 0 or v % step[a] == 0]
+
+    if nd == 1:
+        allp, facep = axis_pairs(0)
+        both = [q for q in facep if q[0] % step[0] == 0 and q[1] % step[0] == 0]
+        nb = int(pr["nboxes"])
+        boxes = [[q] for q in both] + [[q] for q in pick(rng, [q for q in facep if q not in set(both)], 2 * nb) + pick(rng, [q for q in allp if q not in set(facep)], nb // 2)]
+    else:
+        per = [axis_pairs(a) for a in range(nd)]
+        boxes = [[(0, step[a] * int(src.n[a])) for a in range(nd)]]
+        for _ in range(int(pr["nboxes"])):
+            box = []
+            for a in range(nd):
+                allp, facep = per[a]
+                w = rng.random()
+                if w < 0.25:            # both bounds on faces
+                    both = [q for q in facep if q[0] % step[a] == 0 and q[1] % step[a] == 0]
+                    box.append(both[int(rng.integers(len(both)))])
+                elif w < 0.8:
+                    box.append(facep[int(rng.integers(len(facep)))])
+                else:
+                    box.append(allp[int(rng.integers(len(allp)))])
+            boxes.append(box)
+    for box in boxes:
+        a_ = [lo[a] + u * cell[a] / step[a] for a, (u, v) in enumerate(box)]
+        b_ = [lo[a] + v * cell[a] / step[a] for a, (u, v) in enumerate(box)]
+        klo = [u // step[a] for a, (u, v) in enumerate(box)]                       # floor
+        khi = [(v + step[a] - 1) // step[a] - 1 for a, (u, v) in enumerate(box)]   # ceil - 1 (inclusive)
+        aligned = all(u % step[a] == 0 and v % step[a] == 0 for a, (u, v) in enumerate(box))
+        flip = rng.integers(0, 2, nd).astype(bool)
+        fa, fb = np.array([float(q) for q in a_]), np.array([float(q) for q in b_])
+        reg = df.Region(p1=src.corner(np.where(flip, fb, fa)), p2=src.corner(np.where(flip, fa, fb)), dims=src.dims)
+        info = dict(p1=fa, p2=fb, lower_on_face=[u % step[a] == 0 for a, (u, v) in enumerate(box)], upper_on_face=[v % step[a] == 0 for a, (u, v) in enumerate(box)],
+                    want_cells=[klo, khi], mesh_pmin=src.pmin, mesh_pmax=src.pmax, n=src.n, corner_dtype=str(reg.pmin.dtype))
+        r, res = raises(Exception, lambda: f[reg])
+        if not ag.req(not r, "C07.getitem_exact", "field[region inside the mesh region] raised", error=err(r, res), **info):
+            continue
+        m = res.mesh
+        want_min = np.array([float(lo[a] + klo[a] * cell[a]) for a in range(nd)])
+        want_max = np.array([float(lo[a] + (khi[a] + 1) * cell[a]) for a in range(nd)])
+        okm = np.array_equal(m.n, np.array(khi) + 1 - np.array(klo)) and np.array_equal(m.region.pmin, want_min) and np.array_equal(m.region.pmax, want_max)
+        ag.req(okm, "C07.getitem_exact", "not the smallest block of whole cells containing the region (floor .. ceil-1 per axis)",
+               got_n=m.n, got_pmin=m.region.pmin, got_pmax=m.region.pmax, want_pmin=want_min, want_pmax=want_max, **info)
+        sl = tuple(slice(l, h + 1) for l, h in zip(klo, khi))
+        okv = res.array.shape == src.array[sl].shape and np.array_equal(res.array, src.array[sl]) and np.array_equal(res.valid, src.valid[sl]) and res.valid.dtype == bool
+        ag.req(okv, "C07.getitem_exact", "values / validity of field[region] are not those of the block's source cells", **info)
+        rm, mm = raises(Exception, lambda: src.mesh[reg])
+        ag.req(not rm and mm == m, "C07.getitem_exact", "mesh[region] differs from field[region].mesh", **info)
+        if aligned:
+            rs, got = raises(Exception, lambda: src.mesh.region2slices(reg))
+            oks = not rs and tuple(got) == sl
+            ag.req(oks, "C07.getitem_exact", "region2slices of a box with all bounds on cell faces is not its index box", got=repr(got)[:160], **info)
+            if oks and okm:
+                ag.req(np.array_equal(f.array[tuple(got)], res.array) and np.array_equal(f.valid[tuple(got)], res.valid), "C07.getitem_exact",
+                       "array[region2slices(region)] differs from field[region]", **info)
+    # ---- a quarter of a cell outside (exact): rejected
+    for a in range(nd):
+        for side in (-1, 1):
+            p1, p2 = [float(v) for v in lo], [float(v) for v in hi]
+            out = lo[a] - cell[a] / 4 if side < 0 else hi[a] + cell[a] / 4
+            if Fr(float(out)) != out:
+                continue
+            if side < 0:
+                p1[a] = float(out)
+            else:
+                p2[a] = float(out)
+            reg = df.Region(p1=tuple(p1), p2=tuple(p2), dims=src.dims)
+            ag.req(rej(lambda: f[reg]) and rej(lambda: src.mesh[reg]), "C07.reject_outside", "region a quarter of a cell outside the mesh accepted", axis=a, side=side)
